@@ -1161,6 +1161,32 @@ pub fn run_c16(rep: &mut Report, driver: &str, workers: usize, thorough: bool, s
     let n = trees.len();
     let encs: Vec<String> = trees.iter().map(enc_expr).collect();
     let texts: Vec<String> = trees.iter().map(|e| e.to_string()).collect();
+    // "the rendering" is the rendering whatever formatting options the caller's format string carries (width, precision, fill,
+    // sign, alternate, zero padding): every one of them prints the text that `to_string()` prints — an option that reaches a
+    // literal (`{:.1}` turning f2.25 into f2.2, `{:5}` padding an index) makes the printed text denote another tree
+    {
+        let mut bad: Vec<(usize, &str, String)> = vec![];
+        for (i, e) in trees.iter().enumerate() {
+            if i % 7 != 0 && i > 3000 {
+                continue;
+            }
+            let variants: [(&str, String); 8] = [
+                ("{:.1}", format!("{:.1}", e)), ("{:12}", format!("{:12}", e)), ("{:+}", format!("{:+}", e)), ("{:#}", format!("{:#}", e)),
+                ("{:08}", format!("{:08}", e)), ("{:>10.3}", format!("{:>10.3}", e)), ("{:<2}", format!("{:<2}", e)), ("{:.0}", format!("{:.0}", e)),
+            ];
+            for (spec, got) in variants {
+                // padding of the WHOLE rendering would be legitimate for a Display impl that honours width; what must not happen
+                // is a different text once surrounding padding is removed
+                if got.trim_matches(|c| c == ' ' || c == '0') != texts[i].trim_matches(|c| c == ' ' || c == '0') && got != texts[i] {
+                    bad.push((i, spec, got));
+                    break;
+                }
+            }
+        }
+        for (i, spec, got) in bad.into_iter().take(5) {
+            rep.add_finding(Finding { kind: "impl-violates-property".into(), stream: "renderings".into(), case: format!("display-spec\t{}\t{}", spec, encs[i]), human: format!("format!(\"{}\", e) for e = {}", spec, texts[i]), impl_out: got, model_out: texts[i].clone(), predicate: "the rendering of an expression does not depend on the formatting options of the caller's format string".into(), signature: format!("C16 display-spec {}", spec) });
+        }
+    }
     // the property's predicate on the real code alone
     let reparsed: Vec<String> = {
         let mut out = vec![String::new(); n];
